@@ -413,6 +413,9 @@ func verifClassify(l *verifLayer, x verifLine, dbRes string) string {
 		if strings.HasPrefix(x.res, "ok") && strings.HasPrefix(dbRes, "err") && verifSameFileChunksShareStream(l) {
 			return "db-prereader-multi-chunk-stream"
 		}
+		if strings.HasPrefix(x.res, "err") && strings.HasPrefix(dbRes, "ok") && verifStreamAtOffsetZeroWithEmptyFile(l) {
+			return "mem-prereader-stream-at-offset-0"
+		}
 	}
 	return ""
 }
@@ -475,6 +478,23 @@ func verifOnlyFieldDiffers(a, b, field string) bool {
 		}
 	}
 	return n == 1
+}
+
+// verifStreamAtOffsetZeroWithEmptyFile: a data entry lives in the stream that starts at blob offset 0
+// (Offset == 0, InnerOffset > 0) and the TOC also has an empty regular file, whose omitted Offset
+// reads as 0 too.
+func verifStreamAtOffsetZeroWithEmptyFile(l *verifLayer) bool {
+	data0, empty := false, false
+	for i := range l.ents {
+		e := &l.ents[i]
+		if (e.Type == "reg" && e.Size > 0 || e.Type == "chunk") && e.Offset == 0 {
+			data0 = true
+		}
+		if e.Type == "reg" && e.Size == 0 && e.Offset == 0 {
+			empty = true
+		}
+	}
+	return data0 && empty
 }
 
 // verifSameFileChunksShareStream: some file has two chunks stored in the same compressed stream.
@@ -671,6 +691,10 @@ func (s *verifSession) dumpBoth(o *verifOpen, readAll bool) {
 					out.Count("db-prereader-multi-chunk-stream")
 					continue // reported once by the store comparison under its own signature
 				}
+				if x.res != exp && x.verb == "readpre" && d == o.memDump && strings.HasPrefix(x.res, "err") && verifStreamAtOffsetZeroWithEmptyFile(l) {
+					out.Count("mem-prereader-stream-at-offset-0")
+					continue // reported once by the store comparison under its own signature
+				}
 				if x.res != exp {
 					out.Fail("bytes-differ", fmt.Sprintf("layer %s [%s]: %s %q: got %s want %s", o.tag, l.label, x.verb, p, x.res, exp))
 				}
@@ -789,6 +813,11 @@ func TestVerifC05(t *testing.T) {
 
 	var layers []*verifLayer
 	layers = append(layers, verifRegressionScenarios()...)
+	bl, err := verifBuilderScenarios()
+	if err != nil {
+		t.Fatalf("builder scenarios: %v", err)
+	}
+	layers = append(layers, bl...)
 	layers = append(layers, verifCandidateScenarios()...)
 	layers = append(layers, verifNonConformingScenarios()...)
 	if os.Getenv("VERIF_ONLY_SCENARIOS") != "" {
